@@ -14,7 +14,7 @@ def build_obs(tier, tables):
     # parser: a comment token in every state, annotations off and on
     obs += parse_step_obs(["CHK_C15", "CHK_C01"], "c15tok", states=range(0, 16), tok=COMMENT_TOK, tier=tier)
     # parser: pending annotation is attached by the assignment (state 2), any token
-    obs += [o for o in parse_step_obs(["CHK_C15"], "c15ann", states=[0, 2], tier=tier) if "f800" in o.key]
+    obs += [o for o in parse_step_obs(["CHK_C15"], "c15ann", states=[0, 2, 3], tier=tier) if "f800" in o.key]
     # lexer: every rule that produces or accumulates comment text
     sc0 = [r for r in tables["reach"]["0"]]
     obs += lex_step_obs(tables, ["CHK_C15", "CHK_C03"], tier, "c15lex", windows=[4], checks="none", scs=(1,))
